@@ -179,6 +179,22 @@ def check_r2_mq(chk, cfg, mods):
             chk.ob("R2.mq-order", inst, ok,
                    "ordering %s; needs >= %s: %s%s" % (a.ordering, need[0], need[2], why_ok if ok else ""), a.inst.loc, fn.name)
     chk.expect("R2", "message-queue hand-off sites [%s]" % cfg, n, 4)
+    # many senders run claim / send concurrently: a plain (non-atomic) store to the shared descriptor from either is a write-write
+    # race between two senders, whatever the field is for (a statistic, a cache)
+    for m, fn, acc in mq.mq_functions(mods):
+        rs = mq.roles(fn, acc)
+        if "init" in rs or not (rs & {"claim", "send"}):
+            continue
+        plain = [a for a in acc if a.kind in ("store", "memset", "memcpy_dst") and not a.atomic]
+        for a in plain:
+            if True:
+                chk.ob("R2.sender-plain-write", "%s[%s] %s of %s" % (fn.name, cfg, a.kind, mq.acc_field(a) or "?"), False,
+                       "%s runs concurrently in every sender (role %s) and writes the descriptor's %s with a plain store: two senders "
+                       "race on it (and on a weakly ordered machine the compiler may tear or invent the write)"
+                       % (fn.name, ",".join(sorted(rs)), mq.acc_field(a) or "field"), a.inst.loc, fn.name)
+        if not plain:
+            chk.ob("R2.sender-plain-write", "%s[%s]" % (fn.name, cfg), True,
+                   "sender-side function: every store it makes to the descriptor is atomic", fn.loc, fn.name)
 
 
 def check_r3_slots(chk, cfg, mods):
@@ -405,6 +421,10 @@ def run(chk):
         chk.rule_prefix = "ring."
         chk.rule_filter = lambda r: r.startswith(("R1", "R2", "R3.index-width"))
         C05.run_config(chk, cfg)
+        # ... and the ring has one consumer context among the library's own users (C05.R7): a second one reads and writes readi
+        # and the payload with no ordering against the first
+        chk.rule_filter = lambda r: r.startswith("R7")
+        C05.check_user_contexts(chk, cfg, progs[cfg])
         # receivep single owner: reuse C04.R6
         # receivep single owner (C04.R6); shared indices are only ever updated by read-modify-write, the send cursor is
         # handed out by compare-exchange (C04.R1, R4): a blind store between two senders' updates lets two of them write
